@@ -106,14 +106,9 @@ Proof.
     d_native_scripts d_certs d_withdrawals d_voters].
   rewrite native_scan_eq.
   unfold input_vkey_hashes, required_signer_vkey_hashes, certificate_vkey_hashes, withdrawal_vkey_hashes, vote_vkey_hashes.
-  rewrite flat_map_app, !in_app_iff.
-  intros [H|[H|[H|[H|[H|[H|H]]]]]]; auto.
-  - tauto.
-  - tauto.
-  - tauto.
-  - do 3 right. left. revert H. apply flat_map_incl. intros x. apply cert_keys_complete.
-  - tauto.
-  - do 5 right. revert H. apply flat_map_incl. intros x. now rewrite vote_keys_eq.
+  rewrite !flat_map_app, !in_app_iff.
+  intros [H|[H|[H|[H|[H|[H|H]]]]]]; try tauto.
+  do 3 right. left. revert H. apply flat_map_incl. intros x. apply cert_keys_complete.
 Qed.
 
 Theorem required_sound b kh :
@@ -124,16 +119,11 @@ Proof.
     d_native_scripts d_certs d_withdrawals d_voters].
   rewrite native_scan_eq.
   unfold input_vkey_hashes, required_signer_vkey_hashes, certificate_vkey_hashes, withdrawal_vkey_hashes, vote_vkey_hashes.
-  rewrite flat_map_app, !in_app_iff.
-  intros [[H|H]|[H|[H|[H|[H|H]]]]]; auto.
-  - tauto.
-  - tauto.
-  - tauto.
-  - apply in_flat_map in H as (x & Hx & Hh). apply cert_keys_sound in Hh as [Hh|Hh].
-    + left. do 4 right. left. apply in_flat_map. eauto.
-    + right. apply in_flat_map. eauto.
-  - tauto.
-  - left. do 6 right. revert H. apply flat_map_incl. intros x. now rewrite vote_keys_eq.
+  rewrite !flat_map_app, !in_app_iff.
+  intros [[H|H]|[H|[H|[H|[H|H]]]]]; try tauto.
+  apply in_flat_map in H as (x & Hx & Hh). apply cert_keys_sound in Hh as [Hh|Hh].
+  - left. do 4 right. left. apply in_flat_map. eauto.
+  - right. apply in_flat_map. eauto.
 Qed.
 
 Theorem required_complete_all : forall b kh,
@@ -164,3 +154,446 @@ Proof.
   exists (mkB [] [] [] [] [] [StakeRegistration (KeyH kA)] [] [] None), kA.
   split; cbn; tauto.
 Qed.
+
+(* ================================================================== placeholder witnesses *)
+Lemma pair_eqb_eq x y : pair_eqb x y = true <-> x = y.
+Proof.
+  destruct x as [a b], y as [a' b']. unfold pair_eqb; cbn. rewrite andb_true_iff, !bytes_eqb_eq.
+  split; [intros [-> ->]; reflexivity | intros E; inversion E; auto].
+Qed.
+Lemma mem_pair_In x l : mem_pair x l = true <-> In x l.
+Proof.
+  unfold mem_pair. rewrite existsb_exists. split.
+  - intros (y & Hy & E). apply pair_eqb_eq in E. now subst.
+  - intros H. exists x. split; [exact H | now apply pair_eqb_eq].
+Qed.
+
+Lemma oset_pairs_id l : forall seen, NoDup l -> (forall x, In x l -> ~ In x seen) -> oset_pairs seen l = l.
+Proof.
+  induction l as [|x l IH]; intros seen ND Hs; cbn; [reflexivity|].
+  inversion ND as [|? ? Hx ND']; subst.
+  destruct (mem_pair x seen) eqn:E.
+  - apply mem_pair_In in E. exfalso. apply (Hs x); cbn; auto.
+  - f_equal. apply IH; [exact ND'|]. intros y Hy [->|Hin]; [contradiction|]. apply (Hs y); cbn; auto.
+Qed.
+
+Fixpoint nodup_pairsb (l : list (bytes * bytes)) : bool :=
+  match l with [] => true | x :: r => negb (mem_pair x r) && nodup_pairsb r end.
+Lemma nodup_pairsb_sound l : nodup_pairsb l = true -> NoDup l.
+Proof.
+  induction l as [|x l IH]; cbn; [constructor|]. rewrite andb_true_iff, negb_true_iff. intros [E1 E2].
+  constructor; [|auto]. intros HI. apply mem_pair_In in HI. congruence.
+Qed.
+
+Lemma fake_256_nodup : NoDup (map fake_wit (seq 0 256)).
+Proof. apply nodup_pairsb_sound. vm_compute. reflexivity. Qed.
+
+Lemma In_firstn {A} (l : list A) : forall n x, In x (firstn n l) -> In x l.
+Proof. induction l as [|y l IH]; intros [|n] x; cbn; try tauto. intros [->|H]; eauto. Qed.
+Lemma NoDup_firstn {A} (l : list A) : forall n, NoDup l -> NoDup (firstn n l).
+Proof.
+  induction l as [|x l IH]; intros [|n] ND; cbn; try constructor.
+  - inversion ND; subst. intros HI. apply In_firstn in HI. contradiction.
+  - inversion ND; subst. auto.
+Qed.
+
+Lemma seq_prefix : forall n m s, (n <= m)%nat -> seq s n = firstn n (seq s m).
+Proof.
+  induction n as [|n IH]; intros m s H; [reflexivity|].
+  destruct m as [|m]; [lia|]. cbn. f_equal. apply IH. lia.
+Qed.
+
+Lemma band_length a b : length (band a b) = Nat.min (length a) (length b).
+Proof. unfold band. now rewrite map_length, combine_length. Qed.
+
+Lemma fake_wit_sizes i : length (fst (fake_wit i)) = 32%nat /\ length (snd (fake_wit i)) = 64%nat.
+Proof.
+  unfold fake_wit; cbn [fst snd]. rewrite !band_length, app_length, !be_length.
+  split; reflexivity.
+Qed.
+
+Theorem fake_witnesses_spec n : n <= 256 ->
+  let fw := fake_vkey_witnesses n in
+  lenN fw = n /\ Forall (fun w => length (fst w) = 32%nat /\ length (snd w) = 64%nat) fw /\ NoDup fw.
+Proof.
+  intros Hn fw. unfold fake_vkey_witnesses in fw.
+  assert (ND : NoDup (map fake_wit (seq 0 (N.to_nat n)))).
+  { rewrite (seq_prefix (N.to_nat n) 256) by lia. rewrite <- firstn_map. apply NoDup_firstn, fake_256_nodup. }
+  assert (E : fw = map fake_wit (seq 0 (N.to_nat n))).
+  { apply oset_pairs_id; [exact ND | intros x _ []]. }
+  rewrite E. repeat split.
+  - rewrite lenN_length, map_length, seq_length. lia.
+  - apply Forall_forall. intros w Hw. apply in_map_iff in Hw as (i & <- & _). apply fake_wit_sizes.
+  - exact ND.
+Qed.
+
+(* number of placeholder witnesses = number of distinct required key hashes *)
+Theorem fake_count b : b_witness_override b = None ->
+  let n := lenN (dedup (builder_required b)) in
+  n <= 256 ->
+  let fw := fake_vkey_witnesses (witness_count b) in
+  lenN fw = n /\ Forall (fun w => length (fst w) = 32%nat /\ length (snd w) = 64%nat) fw /\ NoDup fw.
+Proof.
+  intros E n Hn. unfold witness_count. rewrite E. now apply fake_witnesses_spec.
+Qed.
+
+Example fake_count_nonvacuous :
+  b_witness_override b_example = None /\ lenN (dedup (builder_required b_example)) = 15
+  /\ lenN (fake_vkey_witnesses (witness_count b_example)) = 15.
+Proof. vm_compute. auto. Qed.
+
+(* the placeholder KEYS alone are not pairwise distinct (0 and 2 both give the all-zero key); only the
+   (key, signature) pairs are, and only up to 256 of them — harmless for the fee, which depends on count and sizes *)
+Lemma fake_vkeys_not_distinct : fst (fake_wit 0) = fst (fake_wit 2).
+Proof. vm_compute. reflexivity. Qed.
+Lemma fake_count_257_refuted : lenN (fake_vkey_witnesses 257) = 256.
+Proof. vm_compute. reflexivity. Qed.
+
+(* ================================================================== build_and_sign's witnesses *)
+Lemma key_eqb_wf a b : wf_key a -> wf_key b -> key_eqb a b = true -> a = b.
+Proof.
+  unfold key_eqb. rewrite andb_true_iff, bytes_eqb_eq, N.eqb_eq.
+  destruct a as [s m|p m], b as [s' m'|p' m']; cbn; intros Wa Wb [E1 E2]; subst; try reflexivity; lia.
+Qed.
+Lemma key_eqb_refl a : key_eqb a a = true.
+Proof. unfold key_eqb. now rewrite bytes_eqb_refl, N.eqb_refl. Qed.
+
+Lemma dedup_keys_In l : forall seen k, In k (dedup_keys seen l) -> In k l.
+Proof.
+  induction l as [|x l IH]; intros seen k; cbn; [tauto|].
+  destruct (existsb (key_eqb x) seen); [eauto|]. intros [->|H]; eauto.
+Qed.
+Lemma dedup_keys_cover l : forall seen k, In k l ->
+  (exists k', In k' seen /\ key_eqb k k' = true) \/ (exists k', In k' (dedup_keys seen l) /\ key_eqb k k' = true).
+Proof.
+  induction l as [|x l IH]; intros seen k; cbn; [tauto|]. intros [->|H].
+  - destruct (existsb (key_eqb k) seen) eqn:E.
+    + left. apply existsb_exists in E as (k' & H1 & H2). eauto.
+    + right. exists k. split; [now left | apply key_eqb_refl].
+  - destruct (existsb (key_eqb x) seen) eqn:E.
+    + apply IH; exact H.
+    + destruct (IH (x :: seen) k H) as [(k' & [<-|Hs] & Hk)|(k' & Hd & Hk)].
+      * right. exists x. split; [now left | exact Hk].
+      * left. eauto.
+      * right. exists k'. split; [now right | exact Hk].
+Qed.
+
+Lemma wit_eqb_eq a b : wit_eqb a b = true <-> a = b.
+Proof.
+  destruct a as [v s m], b as [v' s' m']. unfold wit_eqb; cbn.
+  rewrite !andb_true_iff, !bytes_eqb_eq, N.eqb_eq. split; [intros [[-> ->] ->]; reflexivity | intros E; inversion E; auto].
+Qed.
+Lemma oset_wits_In l : forall seen w, In w (oset_wits seen l) -> In w l.
+Proof.
+  induction l as [|x l IH]; intros seen w; cbn; [tauto|].
+  destruct (existsb (wit_eqb x) seen); [eauto|]. intros [->|H]; eauto.
+Qed.
+Lemma oset_wits_cover l : forall seen w, In w l -> In w seen \/ In w (oset_wits seen l).
+Proof.
+  induction l as [|x l IH]; intros seen w; cbn; [tauto|]. intros [->|H].
+  - destruct (existsb (wit_eqb w) seen) eqn:E.
+    + left. apply existsb_exists in E as (w' & H1 & H2). apply wit_eqb_eq in H2. now subst.
+    + right. now left.
+  - destruct (existsb (wit_eqb x) seen) eqn:E; [apply IH; exact H|].
+    destruct (IH (x :: seen) w H) as [[<-|Hs]|Hd]; cbn; auto.
+Qed.
+Lemma oset_wits_NoDup {B} (f : wit -> B) l : forall seen, NoDup (map f l) -> NoDup (map f (oset_wits seen l)).
+Proof.
+  induction l as [|x l IH]; intros seen ND; cbn; [constructor|].
+  inversion ND as [|? ? Hx ND']; subst.
+  destruct (existsb (wit_eqb x) seen); [auto|]. cbn. constructor; [|auto].
+  intros HI. apply Hx. apply in_map_iff in HI as (w & E & Hw). apply in_map_iff. exists w. split; [exact E|].
+  eapply oset_wits_In; eauto.
+Qed.
+
+Section SignProofs.
+  Variable H28 : bytes -> bytes.
+  Variable H32 : bytes -> bytes.
+  Variable ord_pub : bytes -> bytes.
+  Variable ord_sign : bytes -> bytes -> bytes.
+  Variable ext_sign : bytes -> bytes -> bytes -> bytes.
+
+  Notation vk32 := (vk32 ord_pub).
+  Notation key_hash := (key_hash H28 ord_pub).
+  Notation sign_with := (sign_with ord_sign ext_sign).
+  Notation wit_of := (wit_of ord_pub ord_sign ext_sign).
+  Notation sign_loop := (sign_loop H28 ord_pub ord_sign ext_sign).
+  Notation sign_witnesses := (sign_witnesses H28 ord_pub ord_sign ext_sign).
+  Notation after_auto := (after_auto H28 ord_pub).
+  Notation build_and_sign_witnesses := (build_and_sign_witnesses H28 H32 ord_pub ord_sign ext_sign).
+
+  Definition wit_hash (w : wit) : bytes := H28 (w_vk w).
+
+  Lemma wit_of_vk k m : w_vk (wit_of k m) = vk32 k. Proof. reflexivity. Qed.
+  Lemma wit_of_sig k m : w_sig (wit_of k m) = sign_with k m. Proof. reflexivity. Qed.
+
+  Lemma sign_loop_In req force m ks : forall signed w, In w (sign_loop req force m signed ks) ->
+    exists k, In k ks /\ w = wit_of k m /\ (force = true \/ In (key_hash k) req) /\ ~ In (key_hash k) signed.
+  Proof.
+    induction ks as [|k ks IH]; intros signed w; cbn [Witness.sign_loop]; [intros []|].
+    destruct (negb (memb (key_hash k) signed) && (force || memb (key_hash k) req)) eqn:E.
+    - apply andb_true_iff in E as [E1 E2]. apply negb_true_iff, memb_false in E1.
+      apply orb_true_iff in E2. rewrite memb_In in E2.
+      intros [<-|H].
+      + exists k. repeat split; auto. now left.
+      + destruct (IH _ _ H) as (k' & Hk & Hw & Hr & Hs). exists k'. repeat split; auto; [now right|].
+        intros Hin. apply Hs. now right.
+    - intros H. destruct (IH _ _ H) as (k' & Hk & Hw & Hr & Hs). exists k'. repeat split; auto. now right.
+  Qed.
+
+  Lemma sign_loop_cover req force m ks : forall signed k, In k ks ->
+    (force = true \/ In (key_hash k) req) ->
+    In (key_hash k) signed \/ exists w, In w (sign_loop req force m signed ks) /\ wit_hash w = key_hash k.
+  Proof.
+    induction ks as [|k0 ks IH]; intros signed k; cbn [Witness.sign_loop]; [intros []|].
+    intros [->|Hk] Hr.
+    - destruct (memb (key_hash k) signed) eqn:E1; [left; now apply memb_In|]. right.
+      assert (E2 : force || memb (key_hash k) req = true).
+      { apply orb_true_iff. rewrite memb_In. exact Hr. }
+      rewrite E2. cbn. exists (wit_of k m). split; [now left | reflexivity].
+    - destruct (negb (memb (key_hash k0) signed) && (force || memb (key_hash k0) req)) eqn:E.
+      + destruct (IH (key_hash k0 :: signed) k Hk Hr) as [[E0|Hs]|(w & Hw & Hh)].
+        * right. exists (wit_of k0 m). split; [now left | exact E0].
+        * now left.
+        * right. exists w. split; [now right | exact Hh].
+      + destruct (IH signed k Hk Hr) as [Hs|(w & Hw & Hh)]; [now left | right; eauto].
+  Qed.
+
+  Lemma sign_loop_NoDup req force m ks : forall signed, NoDup (map wit_hash (sign_loop req force m signed ks)).
+  Proof.
+    induction ks as [|k ks IH]; intros signed; cbn [Witness.sign_loop]; [constructor|].
+    destruct (negb (memb (key_hash k) signed) && (force || memb (key_hash k) req)); [|apply IH].
+    cbn [map]. constructor; [|apply IH].
+    intros HI. apply in_map_iff in HI as (w & Hh & Hw).
+    destruct (sign_loop_In _ _ _ _ _ _ Hw) as (k' & _ & -> & _ & Hs). apply Hs. left. exact (eq_sym Hh).
+  Qed.
+
+  Lemma NoDup_wit_bytes l : NoDup (map wit_hash l) -> NoDup (map wit_bytes l).
+  Proof.
+    intros ND. apply (NoDup_map_inv (fun p => H28 (fst p))). rewrite map_map. exact ND.
+  Qed.
+
+  Theorem witnesses_spec : forall required force keys m,
+    let ws := sign_witnesses required force keys m in
+    (forall w, In w ws -> exists k, In k keys /\ w_vk w = vk32 k /\ w_sig w = sign_with k m
+                                    /\ (force = true \/ In (key_hash k) required))
+    /\ (Forall wf_key keys -> forall k, In k keys -> (force = true \/ In (key_hash k) required) ->
+          exists w, In w ws /\ H28 (w_vk w) = key_hash k)
+    /\ (force = false -> forall w, In w ws -> In (H28 (w_vk w)) required)
+    /\ NoDup (map (fun w => H28 (w_vk w)) ws)
+    /\ NoDup (map wit_bytes ws).
+  Proof.
+    intros required force keys m ws. unfold Witness.sign_witnesses in ws.
+    assert (S1 : forall w, In w ws -> exists k, In k keys /\ w = wit_of k m /\ (force = true \/ In (key_hash k) required)).
+    { intros w Hw. apply oset_wits_In in Hw. apply sign_loop_In in Hw as (k & Hk & -> & Hr & _).
+      exists k. split; [eapply dedup_keys_In; eauto | auto]. }
+    assert (ND : NoDup (map wit_hash ws)) by (apply oset_wits_NoDup, sign_loop_NoDup).
+    repeat split.
+    - intros w Hw. destruct (S1 w Hw) as (k & Hk & -> & Hr). exists k. auto.
+    - intros WF k Hk Hr.
+      destruct (dedup_keys_cover keys [] k Hk) as [(k' & [] & _)|(k' & Hd & He)].
+      assert (k = k').
+      { rewrite Forall_forall in WF. apply key_eqb_wf; auto. apply WF. eapply dedup_keys_In; eauto. }
+      subst k'.
+      destruct (sign_loop_cover required force m _ [] k Hd Hr) as [[]|(w & Hw & Hh)].
+      exists w. split; [|exact Hh].
+      destruct (oset_wits_cover _ [] w Hw) as [[]|H]. exact H.
+    - intros Ef w Hw. destruct (S1 w Hw) as (k & _ & -> & [Hr|Hr]); [congruence | exact Hr].
+    - exact ND.
+    - now apply NoDup_wit_bytes.
+  Qed.
+
+  (* the same, for build_and_sign on a builder, against the LEDGER's requirement for the emitted transaction *)
+  Theorem build_and_sign_spec : forall b auto force keys body,
+    Forall wf_key keys ->
+    let b' := after_auto auto keys b in
+    let txid := H32 body in
+    let ws := build_and_sign_witnesses b auto force keys body in
+    (forall w, In w ws -> exists k, In k keys /\ w_vk w = vk32 k /\ w_sig w = sign_with k txid
+                                    /\ (force = true \/ In (key_hash k) (builder_required b')))
+    /\ (forall kh, In kh (Ledger.required_key_hashes (tx_of b')) -> (exists k, In k keys /\ key_hash k = kh) ->
+          exists w, In w ws /\ H28 (w_vk w) = kh)
+    /\ (force = true -> forall k, In k keys -> exists w, In w ws /\ H28 (w_vk w) = key_hash k)
+    /\ (force = false -> forall w, In w ws ->
+          In (H28 (w_vk w)) (Ledger.required_key_hashes (tx_of b')) \/ In (H28 (w_vk w)) (legacy_registration_keys b'))
+    /\ NoDup (map (fun w => H28 (w_vk w)) ws)
+    /\ NoDup (map wit_bytes ws).
+  Proof.
+    intros b auto force keys body WF b' txid ws.
+    destruct (witnesses_spec (builder_required b') force keys txid) as (S1 & S2 & S3 & S4 & S5).
+    fold ws in S1, S2, S3, S4, S5. repeat split; auto.
+    - intros kh Hl (k & Hk & <-). apply S2; auto. right. now apply required_complete.
+    - intros Ef w Hw. apply required_sound. now apply S3.
+  Qed.
+End SignProofs.
+
+(* ================================================================== extended-key signing verifies *)
+Lemma L_lt_two255 : L < two255. Proof. reflexivity. Qed.
+Lemma two255_lt_256_32 : two255 < 256 ^ 32. Proof. reflexivity. Qed.
+Lemma L_pos : 0 < L. Proof. reflexivity. Qed.
+
+Lemma le_length k n : length (le k n) = k.
+Proof. unfold le. now rewrite rev_length, be_length. Qed.
+Lemma unle_le k n : n < 256 ^ N.of_nat k -> unle (le k n) = n.
+Proof. intros H. unfold unle, le. rewrite rev_involutive. now apply unbe_be. Qed.
+Lemma unle_le32 n : n < L -> unle (le 32 n) = n.
+Proof.
+  intros H. apply unle_le. change (N.of_nat 32) with 32.
+  pose proof L_lt_two255. pose proof two255_lt_256_32. lia.
+Qed.
+
+Lemma firstn_app_exact {A} (a b : list A) n : length a = n -> firstn n (a ++ b) = a.
+Proof. intros <-. rewrite firstn_app, Nat.sub_diag, firstn_all. cbn. now rewrite app_nil_r. Qed.
+Lemma skipn_app_exact {A} (a b : list A) n : length a = n -> skipn n (a ++ b) = b.
+Proof. intros <-. rewrite skipn_app, Nat.sub_diag, skipn_all. reflexivity. Qed.
+
+Section EdProofs.
+  Variable G : Type.
+  Variable zero : G.
+  Variable add : G -> G -> G.
+  Variable neg : G -> G.
+  Variable smulB : N -> G.
+  Variable enc_pt : G -> bytes.
+  Variable dec_pt : bytes -> option G.
+  Variable H512 : bytes -> N.
+  (* commutative group *)
+  Hypothesis add_assoc : forall a b c, add a (add b c) = add (add a b) c.
+  Hypothesis add_comm : forall a b, add a b = add b a.
+  Hypothesis add_zero_l : forall a, add zero a = a.
+  Hypothesis add_neg_l : forall a, add (neg a) a = zero.
+  (* n |-> n·B is a homomorphism from (N,+), and L·B = 0 *)
+  Hypothesis smulB_add : forall a b, smulB (a + b) = add (smulB a) (smulB b).
+  Hypothesis smulB_L : smulB L = zero.
+  (* point compression: 32 bytes, decompression inverts it *)
+  Hypothesis enc_pt_length : forall P, length (enc_pt P) = 32%nat.
+  Hypothesis dec_enc_pt : forall P, dec_pt (enc_pt P) = Some P.
+
+  Notation smul := (smul G zero add).
+  Notation base_noclamp := (base_noclamp G smulB enc_pt).
+  Notation ext_sign_model := (ext_sign_model G smulB enc_pt H512).
+  Notation ed_verify := (ed_verify G zero add smulB dec_pt H512).
+
+  Lemma idem_zero a : a = add a a -> a = zero.
+  Proof.
+    intros E. assert (H : add (neg a) a = add (neg a) (add a a)) by (now rewrite <- E).
+    rewrite add_assoc, !add_neg_l, add_zero_l in H. symmetry. exact H.
+  Qed.
+  Lemma smulB_0 : smulB 0 = zero.
+  Proof. apply idem_zero. rewrite <- smulB_add. reflexivity. Qed.
+  Lemma smulB_mulL q : smulB (q * L) = zero.
+  Proof.
+    induction q as [|q IH] using N.peano_ind.
+    - apply smulB_0.
+    - rewrite N.mul_succ_l, smulB_add, IH, smulB_L. apply add_zero_l.
+  Qed.
+  Lemma smulB_mod x : smulB (x mod L) = smulB x.
+  Proof.
+    rewrite (N.div_mod x L) at 2 by (pose proof L_pos; lia).
+    rewrite smulB_add, (N.mul_comm L), smulB_mulL, add_zero_l. reflexivity.
+  Qed.
+  Lemma smul_smulB h k : smul h (smulB k) = smulB (h * k).
+  Proof.
+    unfold Witness.smul. induction h as [|h IH] using N.peano_ind.
+    - cbn. symmetry. apply smulB_0.
+    - rewrite N.iter_succ, IH, <- smulB_add. f_equal. lia.
+  Qed.
+
+  (* S·B = R + h·A for the signature BIP32ED25519PrivateKey.sign computes, A = kL·B *)
+  Theorem ext_sign_verifies kL kR m : unle kL < two255 ->
+    base_noclamp kL = enc_pt (smulB (unle kL))
+    /\ ed_verify (base_noclamp kL) m (ext_sign_model kL kR m).
+  Proof.
+    intros Hk. pose proof L_pos as Lp. pose proof L_lt_two255 as L2.
+    assert (EA : base_noclamp kL = enc_pt (smulB (unle kL))).
+    { unfold Witness.base_noclamp. now rewrite N.mod_small. }
+    split; [exact EA|].
+    unfold Witness.ext_sign_model, Witness.ed_verify.
+    set (A := base_noclamp kL).
+    set (r0 := H512 (kR ++ m) mod L).
+    assert (Hr0 : r0 < L) by (apply N.mod_lt; lia).
+    change (sc_reduce (H512 (kR ++ m))) with (le 32 r0).
+    set (R := base_noclamp (le 32 r0)).
+    assert (ER : R = enc_pt (smulB r0)).
+    { unfold R, Witness.base_noclamp. rewrite unle_le32 by exact Hr0.
+      rewrite N.mod_small by lia. reflexivity. }
+    set (h0 := H512 (R ++ A ++ m) mod L).
+    assert (Hh0 : h0 < L) by (apply N.mod_lt; lia).
+    change (sc_reduce (H512 (R ++ A ++ m))) with (le 32 h0).
+    assert (LR : length R = 32%nat) by (rewrite ER; apply enc_pt_length).
+    unfold sc_add, sc_mul. rewrite !unle_le32; try exact Hr0; try exact Hh0; try (apply N.mod_lt; lia).
+    set (S := (h0 * unle kL mod L + r0) mod L).
+    assert (HS : S < L) by (apply N.mod_lt; lia).
+    split.
+    - rewrite app_length, LR, le_length. reflexivity.
+    - exists (smulB (unle kL)), (smulB r0).
+      rewrite (firstn_app_exact _ _ 32 LR), (skipn_app_exact _ _ 32 LR).
+      split; [unfold A; rewrite EA; apply dec_enc_pt|].
+      split; [rewrite ER; apply dec_enc_pt|].
+      cbv zeta. fold h0. rewrite unle_le32 by exact HS. split; [exact HS|].
+      unfold S. rewrite smulB_mod, smulB_add, smulB_mod, <- smul_smulB. apply add_comm.
+  Qed.
+
+  (* ---------- every witness of the model of build_and_sign verifies ---------- *)
+  Variable H28 : bytes -> bytes.
+  Variable H32 : bytes -> bytes.
+  Variable ord_pub : bytes -> bytes.
+  Variable ord_sign : bytes -> bytes -> bytes.
+  (* NaCl's signing for ordinary keys is assumed correct, not derived *)
+  Hypothesis ord_pub_length : forall seed, length (ord_pub seed) = 32%nat.
+  Hypothesis ord_sign_verifies : forall seed m, length seed = 32%nat -> ed_verify (ord_pub seed) m (ord_sign seed m).
+
+  (* an extended signing key as ExtendedSigningKey.from_hdwallet lays it out: kL kR A cc with A = kL·B, kL < 2^255 *)
+  Definition wf_skey (k : skey) : Prop :=
+    match k with
+    | SkOrd s _ => length s = 32%nat
+    | SkExt p _ => length p = 128%nat /\ unle (firstn 32 p) < two255
+                   /\ firstn 32 (skipn 64 p) = base_noclamp (firstn 32 p)
+    end.
+  Lemma wf_skey_wf_key k : wf_skey k -> wf_key k.
+  Proof. destruct k; cbn; tauto. Qed.
+
+  Theorem witnesses_valid : forall b auto force keys body,
+    Forall wf_skey keys ->
+    forall w, In w (build_and_sign_witnesses H28 H32 ord_pub ord_sign ext_sign_model b auto force keys body) ->
+      length (w_vk w) = 32%nat /\ ed_verify (w_vk w) (H32 body) (w_sig w).
+  Proof.
+    intros b auto force keys body WF w Hw.
+    assert (WF' : Forall wf_key keys).
+    { apply Forall_forall. intros k Hk. apply wf_skey_wf_key. rewrite Forall_forall in WF. auto. }
+    destruct (build_and_sign_spec H28 H32 ord_pub ord_sign ext_sign_model b auto force keys body WF') as (S1 & _).
+    destruct (S1 w Hw) as (k & Hk & Ev & Es & _). rewrite Ev, Es.
+    rewrite Forall_forall in WF. specialize (WF k Hk). destruct k as [s mt|p mt]; cbn in *.
+    - split; [apply ord_pub_length | now apply ord_sign_verifies].
+    - destruct WF as (Lp & Hlt & EA). rewrite EA. split.
+      + unfold Witness.base_noclamp. apply enc_pt_length.
+      + now apply ext_sign_verifies.
+  Qed.
+End EdProofs.
+
+(* ================================================================== non-vacuity of the hypotheses *)
+(* the group hypotheses are consistent (trivial group), and the premise on kL is satisfiable *)
+Example ed_hypotheses_satisfiable :
+  let enc := fun _ : unit => le 32 0 in
+  forall kR m,
+    unle (le 32 5) < two255 /\
+    ed_verify unit tt (fun _ _ => tt) (fun _ => tt) (fun _ => Some tt) (fun _ => 0)
+      (base_noclamp unit (fun _ => tt) enc (le 32 5)) m
+      (ext_sign_model unit (fun _ => tt) enc (fun _ => 0) (le 32 5) kR m).
+Proof.
+  intros enc kR m. split; [vm_compute; reflexivity|].
+  apply (ext_sign_verifies unit tt (fun _ _ => tt) (fun _ => tt) (fun _ => tt) enc (fun _ => Some tt) (fun _ => 0)); auto.
+  - intros []. reflexivity.
+  - intros []. reflexivity.
+  - vm_compute. reflexivity.
+Qed.
+
+(* a scenario for witnesses_spec with concrete (toy) primitives: one required key, one unrelated, one duplicate *)
+Example witnesses_nonvacuous :
+  let H28 := fun b : bytes => firstn 1 b in
+  let ord_pub := fun s : bytes => s in
+  let ord_sign := fun s m : bytes => s ++ m in
+  let ext := fun kL kR m : bytes => kL ++ kR ++ m in
+  let keys := [SkOrd (hx "aa01") 1; SkOrd (hx "bb02") 1; SkOrd (hx "aa01") 1; SkOrd (hx "aa01") 2] in
+  map wit_bytes (sign_witnesses H28 ord_pub ord_sign ext [hx "aa"] false keys (hx "ff"))
+  = [(hx "aa01", hx "aa01ff")].
+Proof. vm_compute. reflexivity. Qed.
